@@ -112,3 +112,57 @@ pub fn price_feed_update(
 ) -> Result<bool> {
     feed.update(price, max_future_excess, idempotent)
 }
+
+/// What the operation wrapped by `with_prices_opts` observes on the oracle.
+pub struct Seen {
+    pub cleared: bool,
+    pub min_slot: Option<u64>,
+    pub min_ts: i64,
+    pub max_ts: i64,
+    /// unit prices `(min, max)` per requested token (`None` = no price)
+    pub prices: Vec<Option<(u128, u128)>>,
+}
+
+/// The real `Oracle::with_prices_opts` on real `Store` / `TokenMap` / feed accounts. The wrapped
+/// operation records what it sees into `seen` and succeeds iff `f_ok`.
+#[allow(clippy::too_many_arguments)]
+pub fn with_prices_opts<'info>(
+    oracle: &mut Oracle,
+    store: &AccountLoader<'info, crate::states::Store>,
+    token_map: &AccountLoader<'info, crate::states::TokenMapHeader>,
+    tokens: &[Pubkey],
+    remaining_accounts: &'info [AccountInfo<'info>],
+    allow_closed: bool,
+    f_ok: bool,
+    seen: &mut Option<Seen>,
+) -> Result<usize> {
+    oracle.with_prices_opts(
+        store,
+        token_map,
+        tokens,
+        remaining_accounts,
+        |oracle, rest| {
+            *seen = Some(Seen {
+                cleared: oracle.is_cleared(),
+                min_slot: oracle.min_oracle_slot(),
+                min_ts: oracle.min_oracle_ts(),
+                max_ts: oracle.max_oracle_ts(),
+                prices: tokens
+                    .iter()
+                    .map(|t| {
+                        oracle
+                            .get_primary_price_with_options(t, true, true)
+                            .ok()
+                            .map(|p| (p.min, p.max))
+                    })
+                    .collect(),
+            });
+            if f_ok {
+                Ok(rest.len())
+            } else {
+                Err(error!(crate::CoreError::Internal))
+            }
+        },
+        allow_closed,
+    )
+}
